@@ -377,6 +377,10 @@ func c14CLI(ctx *core.Ctx, res *core.Result, intn func(int) int, pt string, file
 		for _, i := range which {
 			os.WriteFile(filepath.Join(d, names[i]), []byte(files[i]), 0o644)
 		}
+		args = append([]string{}, args...)
+		for i, a := range args {
+			args[i] = strings.ReplaceAll(a, "@ABS@", d) // absolute spelling of a path in this run's directory
+		}
 		cr := ctx.RunCLI(core.CLIOpts{Dir: d, Bin: bin, Args: append([]string{"-p", "../p.patch", "-p", "../bad.patch", "--skip-generated"}, args...),
 			Env: []string{"GORACE=halt_on_error=0 log_path=" + raceLog}})
 		res.Ob("cli-runs", 1)
@@ -401,22 +405,26 @@ func c14CLI(ctx *core.Ctx, res *core.Result, intn func(int) int, pt string, file
 		solo[i] = o[i]
 	}
 	type grouping struct {
-		name string
-		args []string
+		name   string
+		args   []string
+		covers []int // files the arguments name (nil = all of them); the others must stay untouched
 	}
 	var groups []grouping
-	groups = append(groups, grouping{"all-sorted", append([]string{}, names...)})
+	groups = append(groups, grouping{"all-sorted", append([]string{}, names...), nil})
 	for k := 0; k < 4; k++ {
 		perm := append([]string{}, names...)
 		for i := len(perm) - 1; i > 0; i-- {
 			j := intn(i + 1)
 			perm[i], perm[j] = perm[j], perm[i]
 		}
-		groups = append(groups, grouping{fmt.Sprintf("shuffled-%d", k), perm})
+		groups = append(groups, grouping{fmt.Sprintf("shuffled-%d", k), perm, nil})
 	}
-	groups = append(groups, grouping{"duplicates", append(append([]string{}, names...), names[0], names[len(names)/2], "./"+names[1])})
-	groups = append(groups, grouping{"directory", []string{"."}})
-	groups = append(groups, grouping{"directory-and-files", []string{"./...", names[2], names[0]}})
+	groups = append(groups, grouping{"duplicates", append(append([]string{}, names...), names[0], names[len(names)/2], "./"+names[1]), nil})
+	// the same files under several spellings (relative, ./relative, absolute, via the directory): processed once each
+	groups = append(groups, grouping{"relative-and-absolute", []string{names[0], "@ABS@/" + names[0], "@ABS@/" + names[1], "./" + names[1], names[2]}, []int{0, 1, 2}})
+	groups = append(groups, grouping{"directory-and-absolute", []string{".", "@ABS@/" + names[2], "@ABS@"}, nil})
+	groups = append(groups, grouping{"directory", []string{"."}, nil})
+	groups = append(groups, grouping{"directory-and-files", []string{"./...", names[2], names[0]}, nil})
 	for gi, gr := range groups {
 		o, cr := run(fmt.Sprintf("group%d", gi), gr.args, allIdx)
 		res.Evals++
@@ -425,6 +433,20 @@ func c14CLI(ctx *core.Ctx, res *core.Result, intn func(int) int, pt string, file
 			return
 		}
 		for _, i := range allIdx {
+			if gr.covers != nil {
+				named := false
+				for _, c := range gr.covers {
+					named = named || c == i
+				}
+				if !named {
+					if o[i] != files[i] {
+						res.Violate("C14/unnamed-file-changed", fmt.Sprintf("grouping %s (%v): %s is not among the arguments but changed", gr.name, gr.args, names[i]),
+							map[string]string{"p.patch": pt, "in.go": files[i], "actual.go": o[i]})
+						return
+					}
+					continue
+				}
+			}
 			if o[i] != solo[i] {
 				res.Violate("C14/grouped-result-differs-from-solo", fmt.Sprintf("grouping %s (%v): %s differs from its solo run", gr.name, gr.args, names[i]),
 					map[string]string{"p.patch": pt, "in.go": files[i], "solo.go": solo[i], "actual.go": o[i]})
